@@ -193,8 +193,13 @@ def run(res):
                 fitted = B @ beta
                 wr = float(np.sum(w * (y - fitted) ** 2))
                 gs = [float(beta @ P @ beta) for P in Ps]
+                # accuracy of edof in binary64: the code factors S + P by Cholesky; its backward error m eps |S + P| acts like an extra ridge, which moves
+                # edof by at most m * (m eps |S + P|) / lambda_min(B'WB + S + P)  (first-order perturbation of trace((A + R)^-1 A))
+                Mtot = B.T @ (w[:, None] * B) + Pimpl + SQRT_EPS * np.eye(B.shape[1])
+                mm = B.shape[1]
+                edof_acc = 8 * mm * mm * 2.3e-16 * float(np.linalg.norm(Pimpl, 2) + SQRT_EPS) / max(float(np.linalg.eigvalsh(Mtot)[0]), 1e-300)
                 traj.append(dict(lam=lam, vals=vals, edof=float(gam.statistics_['edof']), rss=wr, gs=gs, ridge=SQRT_EPS * float(beta @ beta),
-                                 fitted=fitted, beta=beta, B=B))
+                                 fitted=fitted, beta=beta, B=B, edof_acc=edof_acc))
                 if rng.random() < (0.06 if res.tier == 'quick' else 0.02):
                     cert_cases.append(c01.case_of(dict(scn, specs=with_lams(specs, vals)), its[0]))
                     cert_meta.append(dict(d0, lam_values=vals))
@@ -206,7 +211,9 @@ def run(res):
             single_pen = len(slots) == 1
             inp = dict(d0, varied=str(vary), base_lams=base, X=X.tolist(), y=y.tolist(), weights=None if scn['w'] is None else scn['w'].tolist())
             for a, b in zip(traj[:-1], traj[1:]):
-                scale_e = 1e-7 * max(1.0, a['edof'])
+                scale_e = 1e-7 * max(1.0, a['edof']) + a['edof_acc'] + b['edof_acc']
+                if a['edof_acc'] + b['edof_acc'] > 1e-3:
+                    res.count('edof comparison not meaningful in binary64 (Cholesky backward error / lambda_min > 1e-3)')
                 if b['edof'] > a['edof'] + scale_e:
                     res.violations.append(dict(what='effective degrees of freedom increased when lam increased', finding=None, input=inp,
                                                observed=dict(lam=[a['lam'], b['lam']], edof=[a['edof'], b['edof']]), expected='non-increasing'))
